@@ -153,12 +153,40 @@ def r203(repo, ctx, index):
         ctx.check(ok, 'R20.3', D, 'DiffusionModel.toDict', td, f'absent recordings (None) are not written to the file (recording flag {rec_flag})',
                   'absent recordings are written as None: np.savez pickles them and np.load refuses the file', construct=f'toDict[recordings None, _record={rec_flag}]')
     fd = repo.func(D, 'DiffusionModel.fromDict')
+    # must-analysis on the CFG: data['k'] is read only where "'k' in data" is known to hold
+    from .. import cfg as C
+
+    def key_tests(test, want):
+        """keys k for which the outcome `want` of the test implies 'k' in data"""
+        out = set()
+        if isinstance(test, ast.Compare) and len(test.ops) == 1 and isinstance(test.left, ast.Constant) and isinstance(test.comparators[0], ast.Name) \
+                and test.comparators[0].id == 'data':
+            if (isinstance(test.ops[0], ast.In) and want) or (isinstance(test.ops[0], ast.NotIn) and not want):
+                out.add(test.left.value)
+        elif isinstance(test, ast.UnaryOp) and isinstance(test.op, ast.Not):
+            out |= key_tests(test.operand, not want)
+        elif isinstance(test, ast.BoolOp):
+            if (isinstance(test.op, ast.And) and want) or (isinstance(test.op, ast.Or) and not want):
+                for v in test.values:
+                    out |= key_tests(v, want)
+        return out
+    g = C.build(fd)
+
+    def gen(node, label):
+        if node.kind == 'test' and label in (True, False):
+            return key_tests(node.ast.test if hasattr(node.ast, 'test') else node.ast, label)
+        return set()
+    IN = C.must_forward(g, gen)
     unguarded = []
-    for n in ast.walk(fd):
-        if isinstance(n, ast.Subscript) and isinstance(n.value, ast.Name) and n.value.id == 'data' and isinstance(n.slice, ast.Constant) and n.slice.value in ('recordX', 'recordTime'):
-            guarded = any(isinstance(i, ast.If) and f"'{n.slice.value}' in data" in U.src(i.test) and n in list(ast.walk(i)) for i in ast.walk(fd))
-            if not guarded:
-                unguarded.append(n.slice.value)
+    for node in g.nodes:
+        eff = C.simple_effect_node(node)
+        if eff is None:
+            continue
+        for n in ast.walk(eff):
+            if isinstance(n, ast.Subscript) and isinstance(n.value, ast.Name) and n.value.id == 'data' and isinstance(n.slice, ast.Constant) and n.slice.value in ('recordX', 'recordTime'):
+                facts = IN.get(node.id)
+                if facts is None or n.slice.value not in facts:
+                    unguarded.append(n.slice.value)
     ctx.check(not unguarded, 'R20.3', D, 'DiffusionModel.fromDict', fd, 'loading tolerates files without recordings', f'loading requires {unguarded}, which files of models without recordings do not contain')
 
 
